@@ -733,6 +733,8 @@ def gen_c16_case(rng, kind, maxlen):
         return True
 
     def word():
+        if rng.chance(1, 8):
+            return rng.pick(["%00", "%00", "%01", "%ff"])        # one byte, escaped on the wire: NUL (the char whose integer value is 0), …
         n = rng.pick([0, 1, 2, 5, 15, 16, 30])
         return "".join(LETTERS[rng.below(3)] for _ in range(n))
 
@@ -1078,7 +1080,7 @@ def tie_obsv(prop, tier, seed, res):
     n = 20000 if tier == "quick" else 150000
     kinds = ["long", "dy", "dc", "str"]
     for i in range(n):
-        cases.append(gen_c16_case(rng, kinds[i % 3], 30 if tier == "quick" else 60))
+        cases.append(gen_c16_case(rng, kinds[i % len(kinds)], 30 if tier == "quick" else 60))
     exp = [obsv_expected(c) for c in cases]
     out = [None, None]
 
